@@ -41,13 +41,18 @@ class C10(Prop):
         def sigs():
             base = lang.gen_signal(rng, n=rng.randint(1, 6), start=Fr(0))
             return dict((k, [[float(t), rng.choice(lang.SMALL)] for (t, _) in base]) for k in names)
-        return {'dense': True, 'formula': f, 'pre_sig': sigs() if rng.random() < 0.85 else None, 'post_sig': sigs()}
+        return {'dense': True, 'formula': f, 'pre_sig': sigs() if rng.random() < 0.85 else None, 'post_sig': sigs(),
+                'useed': rng.randrange(1 << 30) if rng.random() < 0.3 else None}
 
     def judge_dense(self, case):
         v = Verdict()
         f = case['formula']
         names = sorted(case['post_sig'])
         text = lang.to_text(f)
+        if case.get('useed') is not None:
+            import random
+            text = lang.unit_text(f, random.Random(case['useed']))      # same durations, unit-suffix notation
+            v.info['class:unit-suffixes'] = 1
         v.nontrivial = lang.has_stateful(f) and case['pre_sig'] is not None
         v.info['class:dense' + ('' if case['pre_sig'] else '+reset-before-first-update')] = 1
         args = lambda sig: [[k, [list(p) for p in sig[k]]] for k in names]
